@@ -2,7 +2,7 @@
 from hypothesis import strategies as st
 from vlib.core import Sub, Outcome, HarnessError
 from vlib import gen
-from vlib.interp import (Interp, BuilderInvalid, per_char, describe, mk_settings, texts_of_specs, change_points)
+from vlib.interp import (Interp, BuilderInvalid, resolve_idx, per_char, describe, mk_settings, texts_of_specs, change_points)
 from ansi_string import AnsiString, AnsiStr
 from ansi_string.ansi_format import AnsiSetting
 
@@ -163,7 +163,8 @@ def eval_case(case, allranges=False):
             for i in range(1, n):
                 if per[i] != per[i - 1]:
                     pts.update([i - 1, i, i + 1])
-            pts = sorted(x for x in pts if 0 <= x <= n + 2)[:14]
+            pts = sorted(x for x in pts if 0 <= x <= n + 2)
+            pts = pts[:14] if n <= 100 else sorted(set(pts[:1] + pts[len(pts) // 2:len(pts) // 2 + 1] + pts[-2:]))   # each call costs ~15 ms there
             rng = [None] + pts + [x - n for x in pts if x - n < 0]
         for a in rng:
             for b in rng:
@@ -178,7 +179,7 @@ def eval_case(case, allranges=False):
             if o.fails:
                 break
     else:
-        a, b, rev = case['a'], case['b'], case['rev']
+        a, b, rev = resolve_idx(case['a'], v), resolve_idx(case['b'], v), case['rev']
         check_find(o, v, t, per, sel_texts, settings, a, b, rev,
                    '%s.find_settings(%r, %r, %r, reverse=%r)' % (describe(v), list(sel_texts), a, b, rev))
     hasl = [all(x in per[p] for x in sel_texts) for p in range(n)] if sel_texts else []
@@ -197,7 +198,7 @@ def strat(allr=False):
                     st.just({'k': 'absent'}), st.just({'k': 'empty'}))
     d = {'p': gen.progs(CFG), 'sel': sel, 'how': st.integers(0, 11)}
     if not allr:
-        d.update({'a': gen.idx(), 'b': gen.idx(), 'rev': st.booleans()})
+        d.update({'a': gen.ridx(), 'b': gen.ridx(), 'rev': st.booleans()})
     return st.fixed_dictionaries(d)
 
 
